@@ -849,6 +849,20 @@ fn buffer_common(behaviour: MaxBufferBehaviour) -> SimResult {
             real.ep.borrow_mut().inbound[0].paused = true;
         }
     }
+    // Sometimes the paused substream is finished from both sides while its frames are still buffered: the local side
+    // half-closes it, the peer sends its Close (read off the wire by the task of another substream). Buffered frames
+    // must survive that.
+    if choose(3) == 0 {
+        real.ep.borrow_mut().inbound[0].close_after_write = true;
+        real.kick();
+        pump_bounded(&raw, &mut wire);
+        let mut c = vec![];
+        encode(&RFrame { id: 1, flag: CLOSE_INITIATOR, data: vec![] }, &mut c);
+        raw.send(&c);
+        real.kick();
+        pump_bounded(&raw, &mut wire);
+        probe("closed_from_both_sides_while_buffered");
+    }
     // resume all readers
     real.ep.borrow_mut().inbound[0].paused = false;
     real.kick();
@@ -908,7 +922,7 @@ fn limits_backpressure() -> SimResult {
     cfg.set_max_num_streams(max).set_max_buffer_size(maxbuf).set_max_buffer_behaviour(MaxBufferBehaviour::ResetStream);
     cfg.set_split_send_size([1024, 8192, 1 << 20][choose(3)]);
     let ch = |v| if v == 0 { Chunking::Random } else { Chunking::Full };
-    let pc = PipeCfg { capacity: [1024, 4096, 1 << 16][choose(3)], read_chunking: ch(choose(3)), write_chunking: ch(choose(3)), pending_permille: [0, 0, 30][choose(3)], eintr_permille: 0 };
+    let pc = PipeCfg { capacity: [1024, 4096, 1 << 16][choose(3)], read_chunking: ch(choose(3)), write_chunking: ch(choose(3)), pending_permille: [0, 0, 30][choose(3)], eintr_permille: 0, staged: false };
     note_val("max", max as u64);
     note_val("cap", pc.capacity as u64);
     let (a, raw) = pipe::pair_raw(pc);
